@@ -93,6 +93,12 @@ Theorem C03_nocase_negated_class_pinned_refuted :
   /\ model_scan (d_nc (Some h_nc)) [97;98;99] 1000 = [(2, 1)].
 Proof. exact nocase_negated_class_pinned_refuted. Qed.
 
+Theorem C03_wide_rev_context_refuted :
+  members_at md_wrc h_wrc m_wrc 4 = ([], [2])
+  /\ model_scan d_wrc m_wrc 1000 = [(2, 4)]
+  /\ kf_wide_rev_context d_wrc m_wrc = true.
+Proof. exact wide_rev_context_refuted. Qed.
+
 Theorem C03_empty_class_pinned_refuted :
   starts_spec (flags_of md_re) [97;98] h_ec = [] /\ model_scan d_ec [97;98] 1000 = [(0, 2)].
 Proof. exact empty_class_pinned_refuted. Qed.
@@ -126,3 +132,4 @@ Print Assumptions C03_start_position_refuted.
 Print Assumptions C03_fullword_single_length_refuted.
 Print Assumptions C03_nocase_negated_class_pinned_refuted.
 Print Assumptions C03_empty_class_pinned_refuted.
+Print Assumptions C03_wide_rev_context_refuted.
